@@ -328,7 +328,7 @@ def lz4flex_cases(ctx, scratch, quick):
     """frames written by the lz4_flex crate itself (64 KiB internal blocks, linked / independent)"""
     rng = ctx.rng
     out = []
-    specs = [(70000, 4, 0, 1000), (70000, 4, 1, 4096), (140000, 4, 1, 65536)] + ([] if quick else [(300000, 5, 1, 100000), (131072, 4, 0, 65536), (200000, 4, 1, 30000)])
+    specs = [(70000, 4, 0, 1000), (70000, 4, 1, 4096), (140000, 4, 1, 8192)] + ([] if quick else [(300000, 5, 1, 6000), (131072, 4, 0, 4096), (200000, 4, 1, 3000)])
     lines = []
     for j, (n, bd, linked, bs) in enumerate(specs):
         plain = text_log(rng, n // 60 + 5, "flex")[0][:n]
@@ -371,10 +371,14 @@ def parse_blocks(line):
     return int(f[1]), int(f[2]), res
 
 
+def hexlist(h):
+    return "[" + "; ".join('"%s"' % h[i:i + 4096] for i in range(0, len(h), 4096)) + "]"
+
+
 def coq_case(c, aux, results):
-    return '(%d%%N, %d%%N, "%s", [%s], %d%%N, [%s])' % (
-        CODEC[c["codec"]], c["bs"], hx(c["plain"]), "; ".join("%d%%N" % s for s in c["sched"]), aux,
-        "; ".join('(%d%%N, %d%%N, "%s")' % r for r in results))
+    return '(%d%%N, %d%%N, %s, [%s], %d%%N, [%s])' % (
+        CODEC[c["codec"]], c["bs"], hexlist(hx(c["plain"])), "; ".join("%d%%N" % s for s in c["sched"]), aux,
+        "; ".join('(%d%%N, %d%%N, %s)' % (r[0], r[1], hexlist(r[2])) for r in results))
 
 
 def run_blocks(ctx, scratch, quick):
